@@ -148,3 +148,6 @@ def g_g2m(tier, k, n):
         except Exception as e:
             got = repr(e)
         yield ((cy, cm, cd), got == want, "library %r, arithmetic calendar %r" % (got, want))
+
+
+P.frame_check()
